@@ -205,7 +205,7 @@ def execute(spec):
     cmdpath = os.path.join(sb, 'cmd')
     ccpath = os.path.join(sb, 'cmd_cc')
     usage = spec.get('usage')
-    if usage != 'no_infile':
+    if usage not in ('no_infile', 'infile_is_dir'):
         with open(inpath, 'w', newline='') as f:
             f.write(spec['input'])
         os.utime(inpath, (1.5e9, 1.5e9))
